@@ -113,6 +113,8 @@ TRUSTED = [
     "S-expression driver",
     "SQLAlchemy 2 declarative scan / configure_mappers / create_all on SQLite, Jinja2 and black are external: 'imports, "
     "configures, creates' is their judgement, observed for real on every generated model, never proved",
+    "second tie: the AST translator harness/translate/c06_translate.py (strict; rejects what it does not recognise) and "
+    "OrmDispatch.factsOf, the hand-written table of the WrappedField predicates on the field shapes of the grammar",
 ]
 ASSUMPTIONS = [
     "class and field names are ASCII identifiers (Lean `lower` is ASCII lower-casing)",
@@ -126,7 +128,10 @@ RULE = ("random models over the grammar of the property text (1-6 dataclasses; s
         "datetimes, lists of builtins, (Optional) references, collections, single and multi-level inheritance, self and "
         "mutual references, several collections of one target, overridden fields, private fields, short names and long "
         "descriptive names (classes 30-45, fields 20-40 characters, long common prefixes), shuffled declaration "
-        "and registration order, with/without `from __future__ import annotations`; every third model and a fixed family "
+        "and registration order, with/without `from __future__ import annotations`; references inside one inheritance chain "
+        "(to a direct subclass without back reference, to a grandchild, parent <-> child; shape + fixed family), fields of "
+        "classes that are keys of ORMatic's `type_mappings` argument and entries no field uses, references to classes "
+        "outside the class diagram; every third model and a fixed family "
         "spread over 2-3 modules whose cross-module names are visible under TYPE_CHECKING only), each generated, imported, "
         "configured, created and inspected in a fresh subprocess and regenerated under another PYTHONHASHSEED and class "
         "order; non-trivial = at least two classes or at least three mapped fields; distinct by case text")
